@@ -41,8 +41,28 @@ def plans(draw, max_len=60, styles=("legalish", "survive", "chaos", "legal", "la
     style = draw(st.sampled_from(list(styles)))
     pool = STYLES[style]
     n = draw(st.integers(min_len, max_len))
-    steps = draw(st.lists(st.tuples(st.sampled_from(pool), st.integers(0, 2**20)), min_size=n, max_size=n))
-    return {"style": style, "steps": steps}
+    raw = draw(st.lists(st.tuples(st.integers(0, 2**16 - 1), st.integers(0, 2**20)), min_size=n, max_size=n))
+    return {"style": style, "styles": list(styles), "u": [u for u, _ in raw],
+            "steps": [(pool[u % len(pool)], r) for u, r in raw]}
+
+
+# styles that end a terminate-on-invalid episode at once are replaced there by their legal-only counterparts
+_TERMINATING_SUBST = {"chaos": "late_illegal", "solveish": "solve", "crowded": "crowd_only", "survive": "survive_only"}
+
+
+def restyle(plan: dict, index: int, env_name: str = None) -> dict:
+    """Balanced style assignment: Hypothesis' sampled_from is heavily skewed over a few dozen cases, so the
+    style is taken round-robin from the plan's style list by the running case index (deterministic), while the
+    per-step mode choices (u) and arguments (r) stay Hypothesis-drawn.  For terminate-on-invalid environments
+    every second occurrence of a style with raw/illegal steps is replaced by its legal-only counterpart."""
+    styles = plan.get("styles")
+    if not styles or "u" not in plan:
+        return plan
+    style = styles[index % len(styles)]
+    if env_name in envs.TERMINATE_ON_INVALID and (index // len(styles)) % 2 == 0:
+        style = _TERMINATING_SUBST.get(style, style)
+    pool = STYLES[style]
+    return dict(plan, style=style, steps=[(pool[u % len(pool)], r) for u, (_, r) in zip(plan["u"], plan["steps"])])
 
 
 def host(x):
